@@ -231,6 +231,11 @@ func (am *AccountingManager) Stop() error {
 		am.drainAllSessions()
 	}
 
+	// Cancel context and wait for workers first: a record the processor delivers after
+	// pending.json has been written would be loaded and sent again on the next start.
+	am.cancel()
+	am.wg.Wait()
+
 	am.verifCrashPoint(11, "")
 	// Persist pending records before shutdown
 	if err := am.persistPendingRecords(); err != nil {
@@ -238,9 +243,6 @@ func (am *AccountingManager) Stop() error {
 	}
 
 	am.verifCrashPoint(12, "")
-	// Cancel context and wait for workers
-	am.cancel()
-	am.wg.Wait()
 
 	am.logger.Info("Accounting manager stopped")
 	return nil
